@@ -10,7 +10,7 @@ From Astisub Require Import Kit.Base Kit.Str Kit.Scan Model.Dur Model.Ssa.
 From Astisub Require Import Proofs.VttBase Proofs.SsaFields Proofs.SsaTrim Proofs.SsaRows Proofs.SsaLines
   Proofs.SsaInfo Proofs.SsaInfoOrder Proofs.SsaStyles Proofs.SsaEvents Proofs.SsaIgnore Proofs.SsaRead Proofs.SsaReadAny.
 Import ListNotations.
-Close Scope string_scope.      (* left open by Proofs/SsaReadAny.v *)
+Local Close Scope string_scope.      (* left open by Proofs/SsaReadAny.v *)
 Open Scope N_scope.
 
 (* ---------------------------------------------------------------- one line, after trimming *)
@@ -198,38 +198,38 @@ Qed.
 
 (* ---------------------------------------------------------------- the body of a styles or events section *)
 Inductive bline :=
-  | BFormat (v : str) (cols : list str)                                 (* "Format: v", v denoting the columns [cols] *)
-  | BStyle (h : str) (cells : list str) (st : astyle)                   (* "h: cells": a style row *)
-  | BEvent (h : str) (init : list str) (last : str) (ev : aevent)       (* "h: cells": an event of category [h] *)
-  | BComment (l c : str)                                                (* the comment line [l] with text [c] *)
-  | BJunk (l : str).                                                    (* an unintelligible line *)
+  | LFormat (v : str) (cols : list str)                                 (* "Format: v", v denoting the columns [cols] *)
+  | LStyle (h : str) (cells : list str) (st : astyle)                   (* "h: cells": a style row *)
+  | LEvent (h : str) (init : list str) (last : str) (ev : aevent)       (* "h: cells": an event of category [h] *)
+  | LComment (l c : str)                                                (* the comment line [l] with text [c] *)
+  | LJunk (l : str).                                                    (* an unintelligible line *)
 Definition bline_line (x : bline) : str :=
   match x with
-  | BFormat v _ => n_format_pfx ++ v
-  | BStyle h cells _ => h ++ colon_sp ++ join [44] cells
-  | BEvent h init last _ => h ++ colon_sp ++ join [44] (init ++ [last])
-  | BComment l _ => l
-  | BJunk l => l
+  | LFormat v _ => n_format_pfx ++ v
+  | LStyle h cells _ => h ++ colon_sp ++ join [44] cells
+  | LEvent h init last _ => h ++ colon_sp ++ join [44] (init ++ [last])
+  | LComment l _ => l
+  | LJunk l => l
   end.
 (* the lines are valid for the section [sect] when the columns in force are [cols] *)
 Fixpoint blines_ok (sect : asect) (cols : list str) (ls : list bline) : Prop :=
   match ls with
   | [] => True
-  | BFormat v new :: r => format_value v new /\ blines_ok sect (overlay new cols) r
-  | BStyle h cells st :: r => sect = SStyles /\ cols <> [] /\ hdr_ok h /\ h <> n_format /\ style_row cols cells st /\ blines_ok sect cols r
-  | BEvent h init last ev :: r => sect = SEvents /\ cols <> [] /\ hdr_ok h /\ h <> n_format /\ event_row_h h cols init last ev /\ blines_ok sect cols r
-  | BComment l c :: r => comment_line false l c /\ blines_ok sect cols r
-  | BJunk l :: r => junk l /\ blines_ok sect cols r
+  | LFormat v new :: r => format_value v new /\ blines_ok sect (overlay new cols) r
+  | LStyle h cells st :: r => sect = SStyles /\ cols <> [] /\ hdr_ok h /\ h <> n_format /\ style_row cols cells st /\ blines_ok sect cols r
+  | LEvent h init last ev :: r => sect = SEvents /\ cols <> [] /\ hdr_ok h /\ h <> n_format /\ event_row_h h cols init last ev /\ blines_ok sect cols r
+  | LComment l c :: r => comment_line false l c /\ blines_ok sect cols r
+  | LJunk l :: r => junk l /\ blines_ok sect cols r
   end.
 Fixpoint blines_cols (cols : list str) (ls : list bline) : list str :=
   match ls with
   | [] => cols
-  | BFormat _ new :: r => blines_cols (overlay new cols) r
+  | LFormat _ new :: r => blines_cols (overlay new cols) r
   | _ :: r => blines_cols cols r
   end.
-Definition bline_comments (x : bline) : list str := match x with BComment _ c => [c] | _ => [] end.
-Definition bline_styles (x : bline) : list astyle := match x with BStyle _ _ st => [st] | _ => [] end.
-Definition bline_events (x : bline) : list aevent := match x with BEvent _ _ _ ev => [ev] | _ => [] end.
+Definition bline_comments (x : bline) : list str := match x with LComment _ c => [c] | _ => [] end.
+Definition bline_styles (x : bline) : list astyle := match x with LStyle _ _ st => [st] | _ => [] end.
+Definition bline_events (x : bline) : list aevent := match x with LEvent _ _ _ ev => [ev] | _ => [] end.
 
 Section WithInfo.
 Variable b : ainfo.
@@ -392,14 +392,14 @@ Proof.
 Qed.
 
 (* ---------------------------------------------------------------- the document *)
-Definition doc_lines (pre : list pline) (secs : list asec) : list str := map pline_line pre ++ flat_map asec_lines secs.
+Definition adoc_lines (pre : list pline) (secs : list asec) : list str := map pline_line pre ++ flat_map asec_lines secs.
 (* the first line of the input is looked at without its byte-order mark *)
-Definition doc_ok (pre : list pline) (secs : list asec) : Prop :=
+Definition adoc_ok (pre : list pline) (secs : list asec) : Prop :=
   match pre with
   | [] => match secs with [] => True | x :: r => asec_ok true x /\ Forall (asec_ok false) r end
   | p :: pr => pline_ok true p /\ Forall (pline_ok false) pr /\ Forall (asec_ok false) secs
   end.
-Definition doc_entries (pre : list pline) (secs : list asec) : list ientry :=
+Definition adoc_entries (pre : list pline) (secs : list asec) : list ientry :=
   map IC (flat_map pline_comments pre) ++ flat_map asec_entries secs.
 
 (* READING A DOCUMENT WITH EVERY TOLERATED LINE: comment lines anywhere outside unknown sections (before the first
@@ -408,15 +408,15 @@ Definition doc_entries (pre : list pline) (secs : list asec) : list ientry :=
    events sections, unknown sections, the sections in any order and number: the reader returns [b] -- provided the
    comment lines of the whole document are [b]'s comments in order and every key occurs --, the styles of all styles
    sections and the items of all rows whose category is Dialogue, each resolved against the final styles map *)
-Theorem read_sections_all pre secs e : info_ok b -> doc_ok pre secs ->
-  comments_of (doc_entries pre secs) = an_comments b -> (forall f, In (IK f) (doc_entries pre secs)) ->
+Theorem read_sections_all pre secs e : info_ok b -> adoc_ok pre secs ->
+  comments_of (adoc_entries pre secs) = an_comments b -> (forall f, In (IK f) (adoc_entries pre secs)) ->
   let sts := flat_map asec_styles secs in
-  read_ssa_lines (doc_lines pre secs) e =
+  read_ssa_lines (adoc_lines pre secs) e =
   if e then Err EIO
   else Ok (mkAdoc (Some b) (styles_map sts)
                   (map (fun ev => event_item ev (styles_map sts)) (filter is_dialogue (flat_map asec_events secs)))).
 Proof.
-  intros Hb Hok Hcm Hkeys sts. unfold read_ssa_lines, doc_lines.
+  intros Hb Hok Hcm Hkeys sts. unfold read_ssa_lines, adoc_lines.
   assert (Hrun : ssa_run rstate0 true (map pline_line pre ++ flat_map asec_lines secs) =
                  Ok (fold_left asec_apply secs
                        (set_info (fold_left (ientry_apply b) (map IC (flat_map pline_comments pre)) ainfo0) rstate0))).
@@ -429,7 +429,7 @@ Proof.
   rewrite Hrun. destruct e; [reflexivity|].
   destruct (asecs_fold secs (set_info (fold_left (ientry_apply b) (map IC (flat_map pline_comments pre)) ainfo0) rstate0)) as (Hi & Hs & He).
   cbn zeta in *. unfold finish. rewrite Hi, Hs, He. cbn [set_info rstate0 rs_info rs_styles rs_events app].
-  rewrite <- fold_left_app. fold (doc_entries pre secs). rewrite (ientries_final b _ Hcm Hkeys). reflexivity.
+  rewrite <- fold_left_app. fold (adoc_entries pre secs). rewrite (ientries_final b _ Hcm Hkeys). reflexivity.
 Qed.
 End WithInfo.
 
@@ -437,15 +437,15 @@ End WithInfo.
 Definition embed (sec : rsec) : asec :=
   match sec with
   | RInfo h es => AInfo h (map IE es)
-  | RStyles h fs cols rows => AStyles h (BFormat fs cols :: map (fun p : list str * astyle => BStyle n_style (fst p) (snd p)) rows)
+  | RStyles h fs cols rows => AStyles h (LFormat fs cols :: map (fun p : list str * astyle => LStyle n_style (fst p) (snd p)) rows)
   | REvents h fe cols rows =>
-    AEvents h (BFormat fe cols :: map (fun p : (list str * str) * aevent => BEvent n_dialogue (fst (fst p)) (snd (fst p)) (snd p)) rows)
+    AEvents h (LFormat fe cols :: map (fun p : (list str * str) * aevent => LEvent n_dialogue (fst (fst p)) (snd (fst p)) (snd p)) rows)
   end.
-Lemma flat_map_map {A B C} (f : B -> list C) (g : A -> B) l : flat_map f (map g l) = flat_map (fun x => f (g x)) l.
+Lemma fm_map {A B C} (f : B -> list C) (g : A -> B) l : flat_map f (map g l) = flat_map (fun x => f (g x)) l.
 Proof. induction l as [|x r IH]; [reflexivity|]. cbn [map flat_map]. rewrite IH. reflexivity. Qed.
-Lemma flat_map_single {A B} (f : A -> B) l : flat_map (fun x => [f x]) l = map f l.
+Lemma fm_single {A B} (f : A -> B) l : flat_map (fun x => [f x]) l = map f l.
 Proof. induction l as [|x r IH]; [reflexivity|]. cbn [map flat_map app]. rewrite IH. reflexivity. Qed.
-Lemma flat_map_nil {A B} (l : list A) : flat_map (fun _ => @nil B) l = [].
+Lemma fm_nil {A B} (l : list A) : flat_map (fun _ => @nil B) l = [].
 Proof. induction l as [|x r IH]; [reflexivity|]. exact IH. Qed.
 Lemma n_style_not_format : n_style <> n_format. Proof. discriminate. Qed.
 Lemma n_dialogue_not_format : n_dialogue <> n_format. Proof. discriminate. Qed.
@@ -453,7 +453,7 @@ Lemma n_dialogue_not_format : n_dialogue <> n_format. Proof. discriminate. Qed.
 Lemma embed_lines b sec : asec_lines b (embed sec) = rsec_lines b sec.
 Proof.
   destruct sec as [h es|h fs cols rows|h fe cols rows]; cbn [embed asec_lines rsec_lines map bline_line].
-  - rewrite flat_map_map. reflexivity.
+  - rewrite fm_map. reflexivity.
   - rewrite map_map. reflexivity.
   - rewrite map_map. reflexivity.
 Qed.
@@ -473,23 +473,23 @@ Qed.
 Lemma embed_entries sec : asec_entries (embed sec) = entries_of sec.
 Proof.
   destruct sec as [h es|h fs cols rows|h fe cols rows]; cbn [embed asec_entries entries_of flat_map bline_comments app].
-  - rewrite flat_map_map. cbn [aentry_entries]. rewrite flat_map_single. apply map_id.
-  - rewrite flat_map_map. cbn [bline_comments]. rewrite flat_map_nil. reflexivity.
-  - rewrite flat_map_map. cbn [bline_comments]. rewrite flat_map_nil. reflexivity.
+  - rewrite fm_map. cbn [aentry_entries]. rewrite fm_single. apply map_id.
+  - rewrite fm_map. cbn [bline_comments]. rewrite fm_nil. reflexivity.
+  - rewrite fm_map. cbn [bline_comments]. rewrite fm_nil. reflexivity.
 Qed.
 Lemma embed_styles sec : asec_styles (embed sec) = styles_of sec.
 Proof.
   destruct sec as [h es|h fs cols rows|h fe cols rows]; cbn [embed asec_styles styles_of flat_map bline_styles app]; try reflexivity.
-  rewrite flat_map_map. cbn [bline_styles]. apply flat_map_single.
+  rewrite fm_map. cbn [bline_styles]. apply fm_single.
 Qed.
 Lemma embed_events sec : asec_events (embed sec) = events_of sec.
 Proof.
   destruct sec as [h es|h fs cols rows|h fe cols rows]; cbn [embed asec_events events_of flat_map bline_events app]; try reflexivity.
-  rewrite flat_map_map. cbn [bline_events]. apply flat_map_single.
+  rewrite fm_map. cbn [bline_events]. apply fm_single.
 Qed.
 Lemma flat_map_embed {C} (f : asec -> list C) (g : rsec -> list C) secs : (forall x, f (embed x) = g x) ->
   flat_map f (map embed secs) = flat_map g secs.
-Proof. intros H. rewrite flat_map_map. apply flat_map_ext. exact H. Qed.
+Proof. intros H. rewrite fm_map. apply flat_map_ext. exact H. Qed.
 
 (* [read_sections], derived from [read_sections_all]: no line before the first header, every section embedded *)
 Corollary read_sections_again b secs e : info_ok b ->
@@ -501,10 +501,10 @@ Corollary read_sections_again b secs e : info_ok b ->
   else Ok (mkAdoc (Some b) (styles_map sts) (map (fun ev => event_item ev (styles_map sts)) (flat_map events_of secs))).
 Proof.
   intros Hb Hok Hcm Hkeys sts.
-  assert (Hl : flat_map (rsec_lines b) secs = doc_lines b [] (map embed secs)).
-  { unfold doc_lines. cbn [map app]. symmetry. apply flat_map_embed. apply embed_lines. }
-  assert (He : doc_entries [] (map embed secs) = flat_map entries_of secs).
-  { unfold doc_entries. cbn [flat_map map app]. apply flat_map_embed. exact embed_entries. }
+  assert (Hl : flat_map (rsec_lines b) secs = adoc_lines b [] (map embed secs)).
+  { unfold adoc_lines. cbn [map app]. symmetry. apply flat_map_embed. apply embed_lines. }
+  assert (He : adoc_entries [] (map embed secs) = flat_map entries_of secs).
+  { unfold adoc_entries. cbn [flat_map map app]. apply flat_map_embed. exact embed_entries. }
   rewrite Hl, (read_sections_all b [] (map embed secs) e Hb).
   - destruct e; [reflexivity|]. rewrite (flat_map_embed asec_styles styles_of secs embed_styles).
     rewrite (flat_map_embed asec_events events_of secs embed_events). fold sts. do 3 f_equal.
@@ -514,7 +514,7 @@ Proof.
       exists false. rewrite Forall_forall in Hr. apply Hr. exact Hsec. }
     destruct Hsok as (first & Hsok). pose proof (rsec_ok_events first sec Hsok) as Hd. rewrite Forall_forall in Hd.
     unfold is_dialogue. rewrite (Hd ev Hev). apply str_eqb_refl.
-  - unfold doc_ok. destruct secs as [|x r]; [exact I|]. destruct Hok as [Hx Hr]. cbn [map]. split; [apply embed_ok; exact Hx|].
+  - unfold adoc_ok. destruct secs as [|x r]; [exact I|]. destruct Hok as [Hx Hr]. cbn [map]. split; [apply embed_ok; exact Hx|].
     apply Forall_map. revert Hr. apply Forall_impl. intros a. apply embed_ok.
   - rewrite He. exact Hcm.
   - rewrite He. exact Hkeys.
@@ -525,7 +525,6 @@ Qed.
    space between the known keys; the events section before the styles section, with a second (shorter) Format line
    that swaps the first two columns, a row in the new order and a Comment row; a [Fonts] section; a styles section
    with a comment between two rows, the second under the header Foo, and an unintelligible line *)
-Open Scope string_scope.
 Definition z_info : ainfo :=
   kset KWrapStyle (s2l "1") (kset KTitle (s2l "t: x")
     (add_comment (s2l "between") (add_comment (s2l "d") (add_comment (s2l "c") (add_comment (s2l "top") ainfo0))))).
@@ -545,14 +544,13 @@ Definition z_secs : list asec :=
           IE (IK (FN KPlayResY)); IE (IK (FK KScriptType)); IE (IK (FK KScriptUpdatedBy)); IE (IK (FK KSynchPoint));
           IE (IK FT); IE (IK (FK KUpdateDetails))];
    AEvents (s2l "[EVENTS]")
-           [BFormat (s2l "End,Style , Start,Nonsense,Text") x_ecols; BEvent n_dialogue x_init x_last x_ev;
-            BFormat (s2l "Style, End") z_cols2; BEvent n_dialogue z_init2 (s2l "second, line") z_ev2;
-            BEvent (s2l "Comment") z_init2 (s2l "note") z_ev3];
+           [LFormat (s2l "End,Style , Start,Nonsense,Text") x_ecols; LEvent n_dialogue x_init x_last x_ev;
+            LFormat (s2l "Style, End") z_cols2; LEvent n_dialogue z_init2 (s2l "second, line") z_ev2;
+            LEvent (s2l "Comment") z_init2 (s2l "note") z_ev3];
    AUnknown (s2l "[Fonts]") [s2l "fontname: x.ttf"; s2l "; no comment here"];
    AStyles (s2l "[v4+ styles]")
-           [BFormat (s2l "Bold ,Name,Whatever,  TertiaryColour, Fontsize") x_scols; BStyle n_style x_cells x_st;
-            BComment (s2l "; between") (s2l "between"); BStyle (s2l "Foo") z_cells2 z_st2; BJunk (s2l "no colon here")]].
-Close Scope string_scope.
+           [LFormat (s2l "Bold ,Name,Whatever,  TertiaryColour, Fontsize") x_scols; LStyle n_style x_cells x_st;
+            LComment (s2l "; between") (s2l "between"); LStyle (s2l "Foo") z_cells2 z_st2; LJunk (s2l "no colon here")]].
 
 Ltac not_in := vm_compute; intros H; repeat (destruct H as [H|H]; [discriminate|]); exact H.
 Ltac in58 := vm_compute; tauto.
@@ -604,19 +602,19 @@ Proof.
   rewrite N.eqb_refl in H2. discriminate.
 Qed.
 
-Example z_read :
-  read_ssa_lines (doc_lines z_info z_pre z_secs) false =
-  Ok (mkAdoc (Some z_info) [(s2l "Main", Some x_st); (s2l "Alt", Some z_st2)]
-             [mkAitem 1500000000%Z 3000000000%Z (Some (s2l "Main")) (Some (mkAevattr [] None None None None None))
-                      [mkAline [] [mkArun (s2l "Hello, world") None]; mkAline [] [mkArun (s2l "x") (Some (s2l "{\i1}"))]];
-              mkAitem 4000000000%Z 5000000000%Z (Some (s2l "Main")) (Some (mkAevattr [] None None None None None))
-                      [mkAline [] [mkArun (s2l "second, line") None]]]).
+Definition z_expected : adoc :=
+  mkAdoc (Some z_info) [(s2l "Main", Some x_st); (s2l "Alt", Some z_st2)]
+         [mkAitem 1500000000%Z 3000000000%Z (Some (s2l "Main")) (Some (mkAevattr [] None None None None None))
+                  [mkAline [] [mkArun (s2l "Hello, world") None]; mkAline [] [mkArun (s2l "x") (Some (s2l "{\i1}"))]];
+          mkAitem 4000000000%Z 5000000000%Z (Some (s2l "Main")) (Some (mkAevattr [] None None None None None))
+                  [mkAline [] [mkArun (s2l "second, line") None]]].
+Example z_read : read_ssa_lines (adoc_lines z_info z_pre z_secs) false = Ok z_expected.
 Proof.
   rewrite (read_sections_all z_info z_pre z_secs false).
   - reflexivity.
   - unfold z_info, info_ok. split; [repeat constructor; reflexivity|]. split; [intros k; destruct k; split; reflexivity|].
     split; [intros k v; destruct k; discriminate | discriminate].
-  - unfold doc_ok, z_pre, z_secs. split.
+  - unfold adoc_ok, z_pre, z_secs. split.
     { exists (s2l " top"). split; reflexivity. }
     split. { constructor; [|constructor]. split; [reflexivity | discriminate]. }
     constructor; [|constructor; [|constructor; [|constructor; [|constructor]]]].
@@ -650,4 +648,40 @@ Proof.
       split; [|exact I]. right. split; [reflexivity | split; [discriminate | left; not_in]].
   - reflexivity.
   - intros f. destruct f as [k|k|]; try destruct k; vm_compute; tauto.
+Qed.
+
+(* ---------------------------------------------------------------- the rows that become items *)
+(* the events kept at the end are those of the rows whose header is Dialogue *)
+Definition bline_dialogues (x : bline) : list aevent :=
+  match x with LEvent h _ _ ev => if str_eqb h n_dialogue then [ev] else [] | _ => [] end.
+Definition asec_dialogues (sec : asec) : list aevent := match sec with AEvents _ ls => flat_map bline_dialogues ls | _ => [] end.
+Lemma blines_dialogues ls : forall sect cols, blines_ok sect cols ls ->
+  filter is_dialogue (flat_map bline_events ls) = flat_map bline_dialogues ls.
+Proof.
+  induction ls as [|x r IH]; intros sect cols Hok; [reflexivity|].
+  destruct x as [v new|h cells st|h init last ev|l c|l]; cbn [blines_ok flat_map bline_events bline_dialogues app filter] in *.
+  - destruct Hok as (_ & Hr). exact (IH _ _ Hr).
+  - destruct Hok as (_ & _ & _ & _ & _ & Hr). exact (IH _ _ Hr).
+  - destruct Hok as (_ & _ & _ & _ & (_ & _ & Hcat & _) & Hr). unfold is_dialogue at 1. rewrite Hcat, (IH _ _ Hr).
+    destruct (str_eqb h n_dialogue); reflexivity.
+  - destruct Hok as (_ & Hr). exact (IH _ _ Hr).
+  - destruct Hok as (_ & Hr). exact (IH _ _ Hr).
+Qed.
+Lemma filter_flat_map {A B} (p : B -> bool) (f g : A -> list B) l : (forall x, In x l -> filter p (f x) = g x) ->
+  filter p (flat_map f l) = flat_map g l.
+Proof.
+  induction l as [|x r IH]; intros H; [reflexivity|]. cbn [flat_map]. rewrite filter_app, (H x (or_introl eq_refl)), IH; [reflexivity|].
+  intros y Hy. apply H. right. exact Hy.
+Qed.
+Theorem dialogue_rows pre secs : adoc_ok pre secs ->
+  filter is_dialogue (flat_map asec_events secs) = flat_map asec_dialogues secs.
+Proof.
+  intros Hok. apply filter_flat_map. intros sec Hsec.
+  assert (Hs : exists first, asec_ok first sec).
+  { unfold adoc_ok in Hok. destruct pre as [|p pr].
+    - destruct secs as [|x r]; [destruct Hsec|]. destruct Hok as [Hx Hr]. destruct Hsec as [<-|Hsec]; [exists true; exact Hx|].
+      exists false. rewrite Forall_forall in Hr. apply Hr. exact Hsec.
+    - destruct Hok as (_ & _ & Hr). exists false. rewrite Forall_forall in Hr. apply Hr. exact Hsec. }
+  destruct Hs as (first & Hs). destruct sec as [h es|h ls|h ls|h body]; cbn [asec_events asec_dialogues asec_ok] in *; try reflexivity.
+  destruct Hs as (_ & Hls). exact (blines_dialogues ls _ _ Hls).
 Qed.
